@@ -565,6 +565,11 @@ def decode_jobs(chk, jobs, vals):
                 chk.mismatch("convert", dict(ident, variant=[p, op]), cres, "not loaded")
             if common.dstr(val[9]) != op:
                 chk.mismatch("print_op-of-parse_op", dict(ident, variant=[p, op]), common.dstr(val[9]), op)
+            if not val[10]:
+                # hypothesis of convert_injective / notation_roundtrip on the reverse strand (alleles over A-Z and '.')
+                chk.count(db.stream + ":variants", "side condition op_ok false")
+                if db.shipped:
+                    chk.notes.append(f"[C08] side condition op_ok is false on {db.label}/{db.build}: {p}{op}")
             if seqs is None:
                 continue
             R, cwin, G, hap_r = seqs
